@@ -665,7 +665,7 @@ func Run(r *common.Run) error {
 		runCase(r, parseAddrs(c.addrs), strings.Split(c.sched, ","), "corpus")
 	}
 	nR := r.Pick(1200, 20000)
-	for n := 0; n < nR; n++ {
+	for n := 0; n < nR && len(r.Failures) < 80; n++ {
 		r.Mark("case random %d", n)
 		k := 1 + r.Rnd.Intn(3)
 		addrs := make([]int, k)
